@@ -193,6 +193,7 @@ class Repo:
         'fsic.core.models.BaseModel.solve_t', 'fsic.core.linkers.BaseLinker.solve_t', 'fsic.core.linkers.BaseLinker.evaluate_t',
         'fsic.core.linkers.BaseLinker.solve', 'fsic.fortran.FortranEngine.solve_t', 'fsic.fortran.FortranEngine.solve',
         'fsic.core.interfaces.SolverMixin.solve', 'fsic.core.interfaces.SolverMixin.solve_period', 'fsic.core.interfaces.SolverMixin.iter_periods',
+        'fsic.parser.Symbol.combine', 'fsic.extensions.common.AliasMixin.__init__',
     )
 
     def func(self, qualname: str) -> FunctionInfo:
